@@ -57,7 +57,8 @@ ASSUMPTIONS = [
 HANDLES = ['name', 'conn', 'cursor', 'mkcurs', 'proxy', 'proxy-mkcurs']
 COLSETS = [['a', 'b', 'c'], ['id', 'select', 'c d'], ['x'],
            ['Order', 'b', 'from', 'z']]
-VALUES = [None, 0, 1, -7, 2.5, 'x', 'y z', "q'uote", '', b'\x00\x01', 10 ** 12]
+VALUES = [None, 0, 1, -7, 2.5, 'x', 'y z', "q'uote", '', b'\x00\x01', 10 ** 12,
+          '2020-01-31', '2020-01-31 10:20:30', 'unknown']
 
 
 def budget(tier):
@@ -132,6 +133,10 @@ def _gen_case(rng, tier, g):
             'exc_kinds': rng.sample(SOURCE_ERROR_KINDS,
                                     rng.choice([1, 2, 3])),
             'transient': rng.random() < 0.3,
+            # declared column types (whatever is declared, what was written
+            # comes back)
+            'decltypes': rng.choice([None, None, ['DATE', 'TIMESTAMP', ''],
+                                     ['', 'DATE'], ['TIMESTAMP']]),
             'todb_extra': rng.choice([None, None, None, {'drop': True},
                                       {'drop': True, 'create': False},
                                       {'constraints': False},
@@ -154,6 +159,16 @@ class _Bad(Exception):
         self.msg = msg
 
 
+def _read_view(view, what):
+    """A complete pass over a fromdb view; reading what was written cannot
+    fail."""
+    try:
+        return [tuple(r) for r in iter(view)]
+    except Exception as ex:
+        raise _Bad('fromdb-differs', '%s raised %s: %s'
+                   % (what, type(ex).__name__, ex))
+
+
 def _fresh_read(path, cols):
     conn = sqlite3.connect(path, timeout=0)
     try:
@@ -168,8 +183,11 @@ def _setup(path, cols, prior):
     if os.path.exists(path):
         os.unlink(path)
     conn = sqlite3.connect(path)
+    decl = _DECL[0] or []
     conn.execute('create table "%s" (%s)' % (
-        _TNAME[0], ', '.join('"%s"' % c for c in cols)))
+        _TNAME[0], ', '.join(('"%s" %s' % (c, decl[i % len(decl)])
+                              if decl else '"%s"' % c)
+                             for i, c in enumerate(cols))))
     conn.executemany('insert into "%s" values (%s)' % (
         _TNAME[0], ','.join('?' * len(cols))), prior)
     conn.commit()
@@ -238,6 +256,7 @@ _TNAME = ['t']
 
 _FLUENT = [False]
 _TODB_EXTRA = [None]
+_DECL = [None]
 
 
 def _load(e, op, src, dbo, commit):
@@ -376,7 +395,7 @@ def _one(e, case, path, op, handle, commit, fault, log):
             early = e.fromdb(tpath, 'select %s from "%s" order by rowid'
                              % (', '.join('"%s"' % c for c in cols),
                                 _TNAME[0]))
-            got0 = [tuple(r) for r in iter(early)]
+            got0 = _read_view(early, what + ' [fromdb before the load]')
             if canon_rows(got0) != canon_rows([tuple(cols)] + model):
                 raise _Bad('fromdb-differs', '%s: fromdb before the load '
                            'returns %r, expected %r'
@@ -489,10 +508,10 @@ def _one(e, case, path, op, handle, commit, fault, log):
                 view = e.fromdb(rh, 'select %s from "%s" order by rowid'
                                 % (', '.join('"%s"' % c for c in cols),
                                    _TNAME[0]))
-                got = [tuple(r) for r in iter(view)]
+                got = _read_view(view, what + ' [fromdb after the load]')
                 if via not in ('cursor', 'proxy-cursor'):
                     # a second pass returns the same rows
-                    again = [tuple(r) for r in iter(view)]
+                    again = _read_view(view, what + ' [fromdb, second pass]')
                     if canon_rows(again) != canon_rows(got):
                         raise _Bad('fromdb-differs', '%s: second pass of '
                                    'fromdb returns %r, first %r'
@@ -562,6 +581,7 @@ def run_case(case):
     _TNAME[0] = case.get('tname', 't')
     _FLUENT[0] = bool(case.get('fluent'))
     _TODB_EXTRA[0] = case.get('todb_extra')
+    _DECL[0] = case.get('decltypes')
     # a failure that would not repeat (a busy database, a timeout): armed for
     # one pass over the source only - code that retries the load sees a
     # healthy source the second time
